@@ -167,7 +167,11 @@ CHECKS['C23'] = _stack('Seeded search over the peripheral_latency option sets wi
 CHECKS['C24'] = _stack('Seeded search over advertising with fixed and run-time changed channel maps, start/stop/count controls, scan requests, connects and disconnects in between: every advertising event uses each enabled channel '
                        'once in ascending order and no disabled one, events are interval + 0..10 ms apart, nothing is sent while stopped or beyond the count.', _ST + 'advertising PDUs on the air')
 CHECKS['C25'] = _stack('Seeded search over scan and connect requests with right/wrong advertiser address, address type, length, initiators inside/outside the white list and filter switches between any two PDUs, for undirected and directed '
-                       'advertising: the decision to answer / connect is compared with a model of the addressing and filter rules.', _ST + 'scan response / connect decision')
+                       'advertising: the decision to answer / connect is compared with a model of the addressing and filter rules. A second harness (nrf_sim) runs the real nRF52 radio front end (nrf52.hpp: '
+                       'schedule_advertisment, radio_interrupt_handler, is_valid_scan_request) on a simulated Hardware and judges the decision the radio takes within the inter frame space: scan response only to a well formed '
+                       'SCAN_REQ for the own address and type that the filter accepts, the filter asked with the address and type of the scanner, every other PDU handed to the link layer unchanged.', _ST + 'scan response / connect decision')
+CHECKS['C25']['harnesses'] = [_STACK, {'harness': 'nrf_sim', 'binary': 'nrf_sim'}]
+CHECKS['C25']['level_note'] = CHECKS['C25']['level_note'] + '; nrf_sim: the Hardware (registers, timers, radio) is a stub, nrf52.hpp runs as shipped, the link layer above it is a recording stub'
 CHECKS['C27'] = _stack('Seeded search over every LL control opcode (known, unknown, wrong length, responses and rejects) from the central, interleaved with peripheral initiated procedures, lost packets and full buffers: one specified '
                        'answer per request (content checked for feature/unknown/version), none for responses and rejects, one LL_VERSION_IND per connection, and an unanswered peripheral procedure ends the connection after 40 s (not earlier).',
                        _ST + 'request/response bookkeeping of the central')
